@@ -2,7 +2,7 @@
 # setup: offline; checks that the pre-installed tools are present and that the hand-written libm models agree with glibc
 set -e
 cd "$(dirname "$0")"
-for t in cbmc goto-cc goto-instrument g++ python3; do
+for t in cbmc goto-cc goto-instrument g++ python3 lean; do
   command -v $t >/dev/null 2>&1 || { echo "missing tool: $t"; exit 1; }
 done
 cbmc --version
